@@ -55,7 +55,7 @@ ASSUMPTIONS = [
     'them out legitimately (pure cache hits)']
 
 _KEEP_TIME = ('mutation:', 'args_mutated:', 'input_column_not_preserved')
-_KEEP_IO = ('args_mutated:',)
+_KEEP_IO = ('args_mutated:', 'mutation:')
 
 
 warmup = cc.warmup
